@@ -40,11 +40,11 @@ theorem executePlan_mem (s : Store) (p : Plan) (id : Bytes) (h : id ∈ executeP
   | none => simp [hc] at h
   | some cands =>
     simp only [hc] at h
-    have hm : id ∈ cands.eraseDups.filter (fun id =>
-        match getEvent s id with | some e => residual p.filter e | none => false) := by
+    have hm : id ∈ planHits s p.filter cands := by
       split at h
       · exact List.mem_of_mem_take h
       · exact h
+    unfold planHits at hm
     simp only [List.mem_filter] at hm
     cases hg : getEvent s id with
     | none => simp [hg] at hm
